@@ -309,6 +309,18 @@ let run clause_prefix path =
             let due = match x with TraceScan.RDue (p :: _) -> s_of_packet p | _ -> "-" in
             report "resend_on_connect" q ("listed_packet_not_resent due=" ^ due ^ " next_processor_event=" ^ event_kind e ^ " (trace scan)")) in
      go TraceScan.RNone evs);
+    (let rec go x = function
+       | [] -> ()
+       | (q, e) :: rest ->
+         (match TraceScan.kept_step x e with
+          | Some x' -> go x' rest
+          | None ->
+            let what = match e with
+              | C.EDelete (_, id, _) -> "outgoing_entry_deleted_without_an_acknowledgement_for_it id=" ^ string_of_n id
+              | C.ESave (_, p, _) -> "pubrel_saved_without_pubrec " ^ s_of_packet p
+              | _ -> event_kind e in
+            report "kept_until_acked" q (what ^ " last_received=" ^ (match x with Some p -> s_of_packet p | None -> "-") ^ " (trace scan)")) in
+     go None evs);
     if not (TraceScan.scan_noack false all_events) then begin
       let rec first acc = function
         | [] -> "?"
@@ -334,7 +346,7 @@ let run clause_prefix path =
          match items.(deepest) with
          | Ev (q, _, C.EFut (c, true, _, _, _)) ->
            (match L.assoc_opt c dstate.C.t.C.t_futs with
-            | Some f when f.C.cf_fut.Future.f_status = Future.Pending ->
+            | Some f when f.C.cf_fut.Future.f_status <> Future.Completed ->
               let f' = { f with C.cf_fut = { f.C.cf_fut with Future.f_status = Future.Completed } } in
               if not (C.fut_truthful dstate f') then
                 report "future_truthful" q ("future_completed_without_acknowledgement call=" ^ string_of_n c ^
